@@ -122,7 +122,10 @@ package header
 //@   ensures format == "%d.%d %s-%s" && len(a) == 4 ==> result == viaEntry(as(a[0], int), as(a[1], int), as(a[2], string), as(a[3], string))
 //@   ensures format == "%s, %s" && len(a) == 2 ==> result == commaJoin(as(a[0], string), as(a[1], string))
 //@   ensures format == "%s-%s" && len(a) == 2 ==> result == dashJoin(as(a[0], string), as(a[1], string))
+// field(s, 1) is the SECOND whitespace-separated token of s (the received-by pseudonym of a Via entry): with a limit of
+// 2 the "second piece" would be the pseudonym together with a trailing comment, and the comparison would miss it
 //@ extern func (*regexp.Regexp).Split
+//@   requires[split-limit-keeps-the-pseudonym-a-token-of-its-own] n < 0 || n >= 3
 //@   ensures len(result) == nfields(s) && len(result) >= 0 && forall i int :: 0 <= i && i < len(result) ==> result[i] == field(s, i)
 //@ pred namesMe(m *ViaModifier, e string) = nfields(strings.TrimSpace(e)) >= 2 && field(strings.TrimSpace(e), 1) == dashJoin(m.requestedBy, m.boundary)
 //@ func (*ViaModifier).hasLoop
